@@ -109,7 +109,8 @@ Print Assumptions C08_space_rule_refuted.
    the compiled generated code.  For every file, template name and environment: if
      - there is no tight block follower (trailing_semantics_preserved, as above),
      - Whitespace nodes in the bodies of if/else/case/for and in call blocks sit where the parser puts them: after every
-       node that does not eat the white space behind it, and nowhere else; void elements have no children (parser_shaped),
+       node that does not eat the white space behind it, and nowhere else; void elements have no children; no legacy
+       call `{! x }` directly follows a text node that does not end its line (parser_shaped = ws_shaped && no_call_after_text),
      - templates nest at most 200 deep (shallow: the formatter model's fuel),
    then the re-parsed file renders exactly what the original renders: same bytes, same failure and failure position.
    _partial: the guards are sufficient, not necessary.  trailing_semantics_preserved looks through Whitespace nodes when it
@@ -194,3 +195,46 @@ Theorem C08_render_refuted_adjacent : exists (f : file) (name : bytes) (ev : env
   denote_case (embed (reparse_ws f)) name ev <> denote_case (embed f) name ev.
 Proof. exists c08_adjacent, (bs "t"), [(bs "c", VBool true)]. repeat (match goal with |- _ /\ _ => split end); try (vm_compute; reflexivity). vm_compute. discriminate. Qed.
 Print Assumptions C08_render_refuted_adjacent.
+
+(* refutation without no_call_after_text (found by the harness's single-construct layout sweep, reproduced with the real
+   templ binary): <div>alpha {! Card() }</div> (the parser reads the text in front of `{` as "alpha " with no trailing-space
+   mark).  The formatter rewrites the legacy call to `@Card()` and keeps it on the
+   text's line: `<div>alpha @Card()`.  That printed text is ALSO the printed text of the tree whose only child is the text
+   node "alpha @Card()" - and that tree is, up to the layout flags that embed drops, the one the parser returns (its text
+   parser does not stop at `@`; harness shape LegacyCallAfterTextReadBackAsText).  The two trees print byte for byte the same file and render differently, so no
+   re-parse - a function of the printed text - can preserve what both render: the component call becomes literal text.
+   Every other guard holds on the original (no tight follower, white space where the parser puts it, depth 1);
+   reparse_ws, which reads `@x` back as a call, is not what the parser does here, and no_call_after_text is false. *)
+Definition c08_card : fnode := FTempl (bs "Card()") [NText (bs "x") SpVert].
+Definition c08_call_after_text : file := {| f_header := []; f_pkg := bs "package p"; f_nodes := [
+  FTempl (bs "t()") [NElem (bs "div") [] false [NText (bs "alpha ") SpNone; NCallT (bs "Card()")] false SpVert]; c08_card] |}.
+Definition c08_call_read_as_text : file := {| f_header := []; f_pkg := bs "package p"; f_nodes := [
+  FTempl (bs "t()") [NElem (bs "div") [] false [NText (bs "alpha @Card()") SpVert] false SpVert]; c08_card] |}.
+Lemma C08_witness_legacy_call_after_text :
+  fmt_write c08_call_after_text = (bs "package p
+
+templ t() {
+	<div>alpha @Card()
+</div>
+}
+
+templ Card() {
+	x
+}
+") /\
+  fmt_write c08_call_read_as_text = fmt_write c08_call_after_text /\
+  trailing_semantics_preserved c08_call_after_text = true /\ ws_shaped c08_call_after_text = true /\ shallow c08_call_after_text = true /\
+  no_call_after_text c08_call_after_text = false /\ parser_shaped c08_call_after_text = false /\
+  parser_shaped c08_call_read_as_text = true /\
+  denote_case (embed c08_call_after_text) (bs "t") [] = bs "OK:<div>alpha x</div>" /\
+  denote_case (embed c08_call_read_as_text) (bs "t") [] = bs "OK:<div>alpha @Card()</div>".
+Proof. repeat (match goal with |- _ /\ _ => split end); vm_compute; reflexivity. Qed.
+Theorem C08_render_refuted_legacy_call_after_text : exists (f g : file) (name : bytes) (ev : env),
+  fmt_write g = fmt_write f /\
+  trailing_semantics_preserved f = true /\ ws_shaped f = true /\ shallow f = true /\
+  denote_case (embed g) name ev <> denote_case (embed f) name ev.
+Proof.
+  exists c08_call_after_text, c08_call_read_as_text, (bs "t"), [].
+  repeat (match goal with |- _ /\ _ => split end); try (vm_compute; reflexivity). vm_compute. discriminate.
+Qed.
+Print Assumptions C08_render_refuted_legacy_call_after_text.
